@@ -10,6 +10,7 @@ import (
 	"os"
 	"path/filepath"
 	"strings"
+	"syscall"
 	"testing"
 	"time"
 
@@ -86,6 +87,10 @@ var c10Faults = []string{"none", "missing-file", "directory-as-input", "empty-gl
 var sentinel = []byte("// SENTINEL: this file existed before the run\npackage old\n")
 
 func c10Eval(t tb, c c10Cell) {
+	if c.Fault == "main-through-named-pipe" {
+		c10Pipe(t, c.Class, c.YAML, c.Flags)
+		return
+	}
 	col := ev.Get()
 	bin, err := sut.BuildBinary(ev.RepoDir(), filepath.Join(ev.ScratchDir(), "bin"), "v"+c10BuildVersion)
 	if err != nil {
@@ -320,6 +325,54 @@ func brief(s sut.FileState) string {
 	return fmt.Sprintf("{exists:%v dir:%v mode:%v size:%d mtime:%s link:%q sha:%s}", s.Exists, s.IsDir, s.Mode, s.Size, s.ModTime.UTC().Format(time.RFC3339), s.Link, sha([]byte(s.Content)))
 }
 
+// c10Pipe feeds one configuration through a named pipe and compares status and output with the regular-file run.
+func c10Pipe(t tb, class, yaml string, f sut.Flags) bool {
+	col := ev.Get()
+	bin, err := sut.BuildBinary(ev.RepoDir(), filepath.Join(ev.ScratchDir(), "bin"), "v"+c10BuildVersion)
+	if err != nil {
+		t.Fatalf("INFRA: %v", err)
+	}
+	dir := scratch("c10pipe")
+	defer os.RemoveAll(dir)
+	_ = os.WriteFile(filepath.Join(dir, "regular.yaml"), []byte(yaml), 0o644)
+	ref := bin.Run(dir, nil, 60*time.Second, sut.BuildArgs([]string{"regular.yaml"}, "ref.go", f)...)
+	refOut, _ := os.ReadFile(filepath.Join(dir, "ref.go"))
+	fifo := filepath.Join(dir, "piped.yaml")
+	if err := syscall.Mkfifo(fifo, 0o644); err != nil {
+		col.Exclude("mkfifo-not-available")
+		return true
+	}
+	done := make(chan struct{})
+	go func() {
+		defer close(done)
+		w, err := os.OpenFile(fifo, os.O_WRONLY, 0) // blocks until the tool opens the pipe
+		if err != nil {
+			return
+		}
+		_, _ = w.Write([]byte(yaml))
+		_ = w.Close()
+	}()
+	r := bin.Run(dir, nil, 60*time.Second, sut.BuildArgs([]string{"piped.yaml"}, "out.go", f)...)
+	// release the writer if the tool never opened the pipe
+	if rd, err := os.OpenFile(fifo, os.O_RDONLY|syscall.O_NONBLOCK, 0); err == nil {
+		select {
+		case <-done:
+		case <-time.After(2 * time.Second):
+		}
+		_ = rd.Close()
+	}
+	out, _ := os.ReadFile(filepath.Join(dir, "out.go"))
+	col.Case(ev.HashStr("pipe", class, fmt.Sprint(f.Quiet)), true)
+	col.Label("input-through-named-pipe")
+	cell := c10Cell{Class: class, YAML: yaml, Flags: f, Fault: "main-through-named-pipe"}
+	// the file name appears in the report: compare the decision and the generated bytes, not the text
+	if r.TimedOut || (r.Exit == 0) != (ref.Exit == 0) || !bytes.Equal(out, refOut) {
+		violation(t, "pipe-differs-from-regular-file", fmt.Sprintf("[class=%s flags=%q] through a named pipe: exit %d, %d bytes written, timed out %v; as a regular file: exit %d, %d bytes\nstdout tail:\n%s", class, f.String(), r.Exit, len(out), r.TimedOut, ref.Exit, len(refOut), tailLines(r.Stdout, 8)), cell)
+		return false
+	}
+	return true
+}
+
 func TestC10(t *testing.T) {
 	col := ev.Get()
 	var rc c10Cell
@@ -362,6 +415,22 @@ func TestC10(t *testing.T) {
 		}
 	}
 	col.Exhaustive(fmt.Sprintf("full matrix: %d configuration classes x 8 flag subsets {--stub, --ignore-missing-params, --ignore-missing-services} x 8 output pre-states x 5 input faults x 7 companion-file arrangements (none / a valid second file before, after, or matched by the same glob / named with commas, with quotation marks, with 41 multi-byte characters), every cell with and without --quiet", len(c10Classes)))
+
+	// inputs that are no regular files: the same configuration through a named pipe (size 0 as far as stat knows) must
+	// behave like the regular file
+	for i, cl := range c10Classes {
+		if cl.yaml == "" || strings.HasPrefix(cl.name, "two-patterns") || strings.HasPrefix(cl.name, "missing-services-") {
+			continue
+		}
+		idx++
+		if !ev.Mine(idx) {
+			continue
+		}
+		f := sut.Flags{Quiet: i%2 == 1}
+		if !c10Pipe(t, cl.name, cl.yaml, f) {
+			return
+		}
+	}
 
 	// random configurations inside random cells
 	setRapidChecks(pick(25, 2000))
